@@ -83,6 +83,23 @@ let () =
   reg "floatDistance" (function [mb; w; x; y] -> [umod w (floatDistance w x y)] | _ -> failwith "arity");
   reg "equalULP_scalar" (function [mb; w; x; y; n] -> [bz (equalULP_scalar w x y (i32 n))] | _ -> failwith "arity");
   reg "equalULP_vec" (function [mb; w; x; y; n] -> [bz (equalULP_vec w x y (i32 n))] | _ -> failwith "arity")
+  ;
+  (* C06: normalised formats by name; floats are 32-bit patterns *)
+  List.iter (fun (nm, fs) ->
+      reg ("pack_" ^ nm) (fun xs -> [pack_word fs xs]);
+      reg ("unpack_" ^ nm) (function [p] -> unpack_word fs p | _ -> failwith "arity"))
+    [("unorm2x16", fmt_unorm2x16); ("snorm2x16", fmt_snorm2x16); ("unorm4x8", fmt_unorm4x8); ("snorm4x8", fmt_snorm4x8); ("unorm1x8", fmt_unorm1x8); ("unorm2x8", fmt_unorm2x8);
+     ("snorm1x8", fmt_snorm1x8); ("snorm2x8", fmt_snorm2x8); ("unorm1x16", fmt_unorm1x16); ("unorm4x16", fmt_unorm4x16); ("snorm1x16", fmt_snorm1x16); ("snorm4x16", fmt_snorm4x16);
+     ("snorm3x10_1x2", fmt_snorm3x10_1x2); ("unorm3x10_1x2", fmt_unorm3x10_1x2); ("unorm2x4", fmt_unorm2x4); ("unorm4x4", fmt_unorm4x4); ("unorm1x5_1x6_1x5", fmt_unorm1x5_1x6_1x5);
+     ("unorm3x5_1x1", fmt_unorm3x5_1x1); ("unorm2x3_1x2", fmt_unorm2x3_1x2); ("tunorm8", fmt_tunorm8); ("tunorm16", fmt_tunorm16); ("tsnorm8", fmt_tsnorm8); ("tsnorm16", fmt_tsnorm16)];
+  (* integer formats:  sg n b1..bn then values (pack) / the word (unpack); values and results are patterns *)
+  let rec take n l = if n = 0 then ([], l) else (match l with x :: r -> let (a, b) = take (n - 1) r in (x :: a, b) | [] -> failwith "arity") in
+  let int_of_z z = Int64.to_int (u64_of_z z) in
+  reg "pack_ints" (function _sg :: n :: rest -> let (bs, xs) = take (int_of_z n) rest in [pack_ints bs xs] | _ -> failwith "arity");
+  reg "unpack_ints" (function sg :: n :: rest -> let (bs, ps) = take (int_of_z n) rest in (match ps with [p] -> List.map2 (fun bb v -> umod bb v) bs (unpack_ints (b sg) bs p) | _ -> failwith "arity") | _ -> failwith "arity");
+  reg "packF2x11_1x10" (function [x; y; z] -> [packF2x11_1x10 x y z] | _ -> failwith "arity");
+  reg "unpackF2x11_1x10" (function [v] -> unpackF2x11_1x10 v | _ -> failwith "arity")
+
 
 
 
